@@ -563,6 +563,7 @@ class CollectiveGroupingContext(EventPairDetectionContext):
         src_event.pop(_KEY_TYPE, "")
         dst_event.pop(_KEY_TYPE, "")
         src_event.pop("dur")
+        dst_event.pop("dur")
 
         aiulog.log(aiulog.TRACE, "FLOW create: ", src_event, dst_event)
         return src_event, dst_event
